@@ -58,7 +58,11 @@ RULE = ("(i) save-load-roundtrip: real Samplers over {clustering, blobs, kernel 
         "iteration boundary, and — where the cadence model (resume.comp: Model.Cadence with the run's real warm-up schedule) says the "
         "clusterer events coincide — the run resumed with the same n_total is BIT-IDENTICAL to the uninterrupted run (C08_resume_continues_run); "
         "runs with cluster_every in {2,3} on a bimodal target and with blobs returned but not declared (blobs_dtype=None) are generated. "
-        "(iv) also runs one campaign with a stale `<final>.temp` present and, after the crashes, a complete save over the leftover temp.")
+        "(iv) also runs one campaign with a stale `<final>.temp` present and, after the crashes, a complete save over the leftover temp. "
+        "(ix) reused-sampler-sequences: ONE sampler object goes through run(save_every) to the end then run(resume_state_path=<earlier "
+        "checkpoint>, save_every) / save -> sample -> save -> load_state(earlier) -> sample -> save -> save / run -> load_state -> run / random "
+        "sequences of sample, save (new or same name), load (any earlier file); EVERY save is followed at once by loading the file into a fresh "
+        "sampler, which must restore the state the writer held at that moment (oracle on dumps + the model's load fresh (save s)).")
 MODELLED = ["dill round trip: dec (enc d) = some d and dec of a strict prefix fails (trusted; exercised by (i) and (iv))",
             "process-crash granularity only: fsync durability / directory entries under power loss are not modelled",
             "the generator position G, the component state C and the iteration oracle F of Model.Resume are abstract: H_det (one iteration is a "
@@ -832,7 +836,7 @@ def suite_runs(tier, drv):
     c = Corr("run-cadence-resume", "exact (file sets, canonical dumps, generator positions, model runIters on tagged snapshots, "
                                    "continuation vs the cadence model)")
     rng = common.rng_for("C08.runs")
-    n_runs = 9 if tier == "quick" else 36
+    n_runs = 8 if tier == "quick" else 36
     cfgs = list(CONFIGS)
     rng.shuffle(cfgs)
     extra = list(EXTRA_RUN_CONFIGS)
@@ -851,7 +855,7 @@ def suite_runs(tier, drv):
         n_total_resume = 2 * n_total if j % 3 == 0 else None
         key = dict(cfg=cfg, save_every=k, resume_save_every=k2, seed=seed, n_total=n_total, n_total_resume=n_total_resume)
         rec = run_case(cfg, k, k2, seed, n_total, n_total_resume=n_total_resume, max_resumes=(3 if tier == "quick" else None),
-                       manual=(True if tier != "quick" or j % 2 == 0 else "no-second-run"))
+                       manual=(True if tier != "quick" or j % 3 == 0 else "no-second-run"))
         if rec.get("unrelated"):
             c.count("run_fails_also_without_checkpoints")
             continue
@@ -1890,10 +1894,169 @@ def suite_core_meta(tier, drv):
     return c
 
 
+# ----------------------------------------------------------------------------- (ix) ONE sampler object reused: save / load / resume / save
+SAME_OBJECT_KINDS = ["run-then-resume-same-object", "save-load-earlier-sample-save", "run-load-run", "random-ops", "random-ops"]
+
+
+def _restore_mismatch(writer, loaded):
+    """the property's oracle for one checkpoint: loaded into a fresh sampler it must be the state the writer held when it wrote it
+    (a None under one of the seven keys with a default may come back as that default) -> message or None"""
+    for key in writer["cur"]:
+        if writer["cur"][key] != loaded["cur"].get(key) and not (writer["cur"][key] == ("N",) and key in
+                                                                ("iter", "calls", "beta", "logz", "steps", "acceptance", "efficiency")):
+            return f"_current[{key!r}]: writer {writer['cur'][key]} loaded {loaded['cur'].get(key)}"
+    if writer["hist"] != loaded["hist"]:
+        return _first_diff(dict(writer, cur={}), dict(loaded, cur={})) or "history differs"
+    if writer["ndim"] != loaded["ndim"]:
+        return f"n_dim {writer['ndim']} vs {loaded['ndim']}"
+    return None
+
+
+@contextlib.contextmanager
+def checked_saves(core, cfg, events):
+    """every save_sampler_state of `core` is followed AT ONCE by loading the file into a fresh sampler and comparing it with what
+    the writer held when it wrote it (files may be overwritten later in the sequence).  The generator is left where it was."""
+    from tempest.core import SamplerCore
+    orig = SamplerCore.save_sampler_state
+
+    def hooked(self, path, *a, **k):
+        if self is not core:
+            return orig(self, path, *a, **k)
+        before = dump_state(self.state)
+        r = orig(self, path, *a, **k)
+        st = np.random.get_state()
+        ev = dict(file=os.path.basename(str(path)), n_hist=len(before["hist"]["beta"]), iter=before["cur"].get("iter"),
+                  n_saves_before=len(events), writer=before)
+        try:
+            ev["unchanged_by_save"] = dump_state(self.state) == before
+            f = mk_sampler(cfg)
+            f.load_state(path)
+            ev["loaded"] = dump_state(f.state)
+            ev["mismatch"] = _restore_mismatch(before, ev["loaded"])
+        except Exception as e:  # noqa
+            ev["mismatch"] = f"loading the checkpoint into a fresh sampler raised {type(e).__name__}: {e}"
+        finally:
+            np.random.set_state(st)
+        events.append(ev)
+        return r
+    with common.patched(SamplerCore, "save_sampler_state", hooked):
+        yield
+
+
+def same_object_case(cfg, kind, seed):
+    """a sequence of run / sample / save_state / load_state / resume on ONE sampler object.  Returns (ops performed, save events, error)"""
+    import random
+    rng = random.Random(seed)
+    root = tempfile.mkdtemp(prefix="tv08_")
+    out = os.path.join(root, "out")
+    events, ops = [], []
+    try:
+        with _quiet(), warnings.catch_warnings():
+            warnings.simplefilter("ignore")
+            np.random.seed(seed % 2 ** 31)
+            s = mk_sampler(cfg, output_dir=out, label="ps")
+            with checked_saves(s._core, cfg, events):
+                if kind == "run-then-resume-same-object":
+                    k1, k2 = rng.choice([1, 2]), 1
+                    s.run(n_total=96, save_every=k1, progress=False)
+                    ops.append(f"run(n_total=96, save_every={k1}) [{int(s.state.get_current('iter'))} iterations]")
+                    its = _files(out, "ps")[0]
+                    back = rng.choice(its[: max(1, len(its) // 2)])
+                    s.run(n_total=96, resume_state_path=os.path.join(out, f"ps_{back}.state"), save_every=k2, progress=False)
+                    ops.append(f"same object: run(resume_state_path='ps_{back}.state', save_every={k2})")
+                elif kind == "run-load-run":
+                    s.run(n_total=64, save_every=2, progress=False)
+                    ops.append(f"run(n_total=64, save_every=2) [{int(s.state.get_current('iter'))} iterations]")
+                    its = _files(out, "ps")[0]
+                    back = its[0]
+                    s.load_state(os.path.join(out, f"ps_{back}.state"))
+                    s.run(n_total=64, save_every=1, progress=False)
+                    ops.append(f"same object: load_state('ps_{back}.state'); run(n_total=64, save_every=1)")
+                else:
+                    s._core._initialize_fresh()
+                    files = []
+                    if kind == "save-load-earlier-sample-save":
+                        prog = ["sample"] * rng.choice([1, 2]) + ["save:new"] + ["sample"] * rng.choice([1, 2, 3]) + ["save:new", "load:0"] + \
+                               ["sample"] * rng.choice([0, 1, 2]) + ["save:new", "save:same"]
+                    else:
+                        prog = ["sample", "save:new"] + [rng.choice(["sample", "sample", "save:new", "save:same", "load", "save:new"])
+                                                         for _ in range(rng.choice([6, 9, 12]))] + ["save:new"]
+                    for op in prog:
+                        if op == "sample":
+                            s.sample()
+                        elif op.startswith("save"):
+                            if op == "save:new" or not files:
+                                files.append(os.path.join(root, f"c{len(files)}.state"))
+                            s.save_state(files[-1])
+                        elif files:
+                            j = 0 if op == "load:0" else rng.randrange(len(files))
+                            s.load_state(files[j])
+                            op = f"load:c{j}"
+                        ops.append(op)
+        return ops, events, None
+    except Exception as e:  # noqa
+        return ops, events, f"{type(e).__name__}: {e}"
+    finally:
+        shutil.rmtree(root, ignore_errors=True)
+
+
+def oracle_same_object(cfg, kind, seed):
+    return oracle_same_object_from(*same_object_case(cfg, kind, seed))
+
+
+def suite_same_object(tier, drv):
+    c = Corr("reused-sampler-sequences", "exact (canonical dumps: every checkpoint written by a REUSED sampler object vs the writer's state at "
+                                         "that moment; model load fresh (save s) on tagged values)")
+    rng = common.rng_for("C08.sameobject")
+    cfgs = [CONFIGS[0], CONFIGS[6], CONFIGS[11], EXTRA_RUN_CONFIGS[2]] if tier == "quick" else CONFIGS + EXTRA_RUN_CONFIGS
+    kinds = SAME_OBJECT_KINDS if tier == "quick" else SAME_OBJECT_KINDS * 6
+    lines, recs = [], []
+    for n_k, kind in enumerate(kinds):
+        cfg = cfgs[n_k % len(cfgs)] if tier == "quick" else rng.choice(cfgs)
+        seed = rng.randrange(2 ** 31)
+        key = dict(cfg=cfg, sequence=kind, seed=seed)
+        ops, events, err = same_object_case(cfg, kind, seed)
+        c.case(key, True)
+        c.count(f"sequence={kind}")
+        c.count("checkpoints_written_by_a_reused_object", len(events))
+        c.count("…after a load of an EARLIER checkpoint", sum(1 for ev in events if any(
+            e2["n_hist"] > ev["n_hist"] for e2 in events[:ev["n_saves_before"]])))
+        msg = oracle_same_object_from(ops, events, err)
+        if msg:
+            c.disagree(input=key, impl=msg, model="every checkpoint restores the writer's state of that moment (C08_restore_identity, "
+                                                  "C08_every_checkpoint_restores)", kind="same-object", **key)
+            continue
+        for ev in events[:: (1 if tier != "quick" else 3)]:
+            tg = Tagger()
+            lines.append("ckpt.roundtrip " + tg.state_args(ev["writer"]))
+            recs.append((dict(key, file=ev["file"], save_number=ev["n_saves_before"] + 1), ev, tg))
+        c.sample({"case": key, "ops": ops[:14], "saves": [(ev["file"], ev["n_hist"]) for ev in events][:24]})
+    for (key, ev, tg), line, ans in zip(recs, lines, drv.batch(lines)):
+        m = parse_state(ans) if ans.startswith("cur=") else None
+        lc, lh = tg.cur(ev["loaded"]["cur"]), tg.hist(ev["loaded"]["hist"])
+        if m is None or m[0] != lc or m[1] != lh or m[2] != ev["loaded"]["ndim"]:
+            c.disagree(input=key, impl=dict(hist_len={k: len(v) for k, v in lh.items()}, iter=lc.get("iter")), model=ans[:300], kind="same-object",
+                       **{k: v for k, v in key.items() if k in ("cfg", "sequence", "seed")})
+    return c
+
+
+def oracle_same_object_from(ops, events, err):
+    if err:
+        return f"sequence {ops} on one sampler object raised {err}"
+    for ev in events:
+        if ev.get("mismatch"):
+            return (f"one sampler object, operations {ops}: checkpoint {ev['file']} (save number {ev['n_saves_before'] + 1}; the writer was at "
+                    f"iter={ev['iter']} with {ev['n_hist']} committed iterations) loaded into a fresh sampler does not restore the state the "
+                    f"writer held when it wrote it: {ev['mismatch']}")
+        if ev.get("unchanged_by_save") is False:
+            return f"one sampler object, operations {ops}: save_state({ev['file']}) changed the state it saved"
+    return None
+
+
 def correspond(tier):
     drv = common.Driver()
     out = []
-    for f in (suite_roundtrip, suite_runs, suite_protocol, suite_crash, suite_sm_roundtrip, suite_sm_crash, suite_pool_kinds, suite_core_meta):
+    for f in (suite_roundtrip, suite_runs, suite_protocol, suite_crash, suite_sm_roundtrip, suite_sm_crash, suite_pool_kinds, suite_core_meta, suite_same_object):
         try:
             out.append(f(tier, drv))
         except common.LeanError:
@@ -2020,6 +2183,8 @@ def search(tier, hints):
             elif h.get("kind") == "crash" and "point" in h:
                 r = oracle_crash_point(h["cfg"], h["seed"], h["old_checkpoint"], tuple(h["point"]), h["eager"], h.get("stale_tmp", False))
                 add("crash", r, cfg=h["cfg"], seed=h["seed"], old_checkpoint=h["old_checkpoint"])
+            elif h.get("kind") == "same-object" and "sequence" in h:
+                add("same-object", oracle_same_object(h["cfg"], h["sequence"], h["seed"]), cfg=h["cfg"], sequence=h["sequence"], seed=h["seed"])
             elif h.get("kind") == "meta" and "variant" in h:
                 add("meta", oracle_meta(h["cfg"], h["k"], h["seed"], h["variant"]), cfg=h["cfg"], k=h["k"], seed=h["seed"], variant=h["variant"])
             elif h.get("kind") == "resave" and "old_checkpoint" in h:
@@ -2039,6 +2204,7 @@ def search(tier, hints):
     # 2. generated: crash injection first when the protocol is in doubt, otherwise round trips, runs, crashes
     order = ["crash", "roundtrip", "run"] if ("protocol" in kinds or "crash" in kinds or not kinds) else ["roundtrip", "run", "crash"]
     order = (["meta"] + order) if "meta" in kinds else (order[:2] + ["meta"] + order[2:])
+    order = (["same-object"] + order) if "same-object" in kinds else (order[:1] + ["same-object"] + order[1:])
     sm_first = any(k_ and k_.startswith("sm-") for k_ in kinds)
     order = (["sm-crash", "sm-roundtrip"] + order) if sm_first else (order + ["sm-crash", "sm-roundtrip"])
     for what in order:
@@ -2050,6 +2216,11 @@ def search(tier, hints):
                 add("sm-crash", oracle_sm_crash(cfg, name, seed, with_old, stale, tier, rng, max_points=(40 if tier == "quick" else None)),
                     cfg=cfg, name=name, seed=seed, old_checkpoint=with_old, stale_tmp=stale)
                 if found:
+                    return found
+        elif what == "same-object":
+            for n_k, kind in enumerate(SAME_OBJECT_KINDS[1:] + SAME_OBJECT_KINDS[:1] + (SAME_OBJECT_KINDS * 2 if tier != "quick" else [])):
+                cfg, seed = [CONFIGS[0], CONFIGS[7], CONFIGS[10], EXTRA_RUN_CONFIGS[2]][n_k % 4], rng.randrange(2 ** 31)
+                if add("same-object", oracle_same_object(cfg, kind, seed), cfg=cfg, sequence=kind, seed=seed):
                     return found
         elif what == "meta":
             for cfg in [CONFIGS[0], CONFIGS[11], EXTRA_RUN_CONFIGS[2]]:
@@ -2181,6 +2352,8 @@ def replay(obj):
     elif kind == "crash":
         msg = oracle_crash_point(f["cfg"], f["seed"], f["old_checkpoint"], tuple(f["point"]), f["eager"], f.get("stale_tmp", False),
                                  f.get("name", "a.state"))
+    elif kind == "same-object":
+        msg = oracle_same_object(f["cfg"], f["sequence"], f["seed"])
     elif kind == "meta":
         msg = oracle_meta(f["cfg"], f["k"], f["seed"], f["variant"])
     elif kind == "resave":
